@@ -4,4 +4,4 @@ TIE = "corr:pe"
 TIE_THEOREM = "Relic.Props.C01 (models Relic.Model.PE vs lib/authenticode)"
 UNPROVED = ['appx_sign_then_verify_full (model verifier accepts what the model signer wrote: needs Read∘WriteDirectory round trip; executed per op)', 'Relic.Props.C01.deb_sign_then_verify_full (text layer: checkSig accepts the canonical text of the message it was built from; proved at the archive layer: deb_sign_then_verify, plus a decided end-to-end instance)']
 IMPL_PARALLEL = 16
-install(globals(), "C01", ["pe", "e2e", "cab", "ps", "jar", "apk", "xsig", "apkv", "deb", "appx"])
+install(globals(), "C01", ["pe", "e2e", "cab", "ps", "jar", "apk", "xsig", "apkv", "deb", "appx", "pgp"])
